@@ -472,7 +472,7 @@ type c09FaultCase struct {
 	NChal    int    `json:"nchal"` // challenges the mechanism wants answered (>= 1)
 	NResp    int    `json:"nresp"` // responses the client sends before the fault (< NChal)
 	IR       bool   `json:"ir"`
-	Fault    string `json:"fault"` // eof (half-close), abort, stall (silence past the 30 ms read timeout)
+	Fault    string `json:"fault"` // eof (half-close), abort, stall (silence past the 100 ms read timeout)
 }
 
 // c09FaultRun: everything up to the fault is sent in one segment; then the
@@ -485,7 +485,7 @@ func c09FaultRun(c c09FaultCase) Verdict {
 		cfg.TLS = "implicit"
 	}
 	if c.Fault == "stall" {
-		cfg.ReadTimeoutMs = 30
+		cfg.ReadTimeoutMs = 100
 	}
 	sc := harness.SASLScript{}
 	for i := 0; i < c.NChal; i++ {
@@ -985,6 +985,9 @@ func TestC09(t *testing.T) {
 							idx++
 							if !mine(idx) {
 								continue
+							}
+							if fault == "stall" && ir && !thorough() {
+								continue // (each costs two read timeouts of wall-clock time)
 							}
 							if !c09Fault.one(t, c09FaultCase{Implicit: implicit, LMTP: lmtp, NChal: nchal, NResp: nresp, IR: ir, Fault: fault}) {
 								return
